@@ -301,6 +301,15 @@ EXTRA4 = {
     'C09': ' Round 6: DisplacementFieldTransform.fit for every flow representation (T6x.fit).'}
 
 
+EXTRA5 = {
+    'C02': ' Round 7: WORLD -> index of another grid (shared T1.two-grids).',
+    'C04': ' Round 7: T13.pyramid (finest pyramid level read where its grid says); sampling twice with a scalar outside value leaves the batch unchanged.',
+    'C10': ' Round 7: one-step conversions between two grids (shared T1.two-grids); files / SimpleITK images hold and are labelled as world vectors (shared T18.flow-api).',
+    'C11': ' Round 7: FlowFields.exp / FlowField.exp convert to cube units and back (shared T10x.exp).',
+    'C18': ' Round 7: tensors that are reversed-axes views are written in logical voxel order (T18.strided).',
+    'C19': ' Round 7: operands given in different axes are refused (T19.mixed-axes).'}
+
+
 def main():
     sys.path.insert(0, HERE)
     props = [json.loads(l) for l in open(os.path.join(HERE, "properties.jsonl"))]
@@ -314,7 +323,7 @@ def main():
             na.append({"property_id": pid, "reason": reason})
             continue
         _, engine, technique, text, ref = ent
-        text = text + EXTRA.get(pid, "") + EXTRA2.get(pid, "") + EXTRA3.get(pid, "") + EXTRA4.get(pid, "")
+        text = text + EXTRA.get(pid, "") + EXTRA2.get(pid, "") + EXTRA3.get(pid, "") + EXTRA4.get(pid, "") + EXTRA5.get(pid, "")
         checks.append({
             "property_id": pid,
             "quick_cmd": f"./check {pid} --tier quick",
